@@ -6,6 +6,8 @@ and the link from the recorded marks to the returned ranges.
 -/
 import MstVerif.Proofs.DiffList
 
+set_option linter.unusedSectionVars false
+
 namespace Mst
 variable {K D : Type} [LinearOrder K] [DecidableEq D]
 
@@ -18,43 +20,422 @@ def diffWalk (loc peer : List (PR K D)) : Except String (Builder K) :=
     | .error e => .error e
     | .ok (_, _, b) => .ok b
 
+/-! ### Helpers: builder pushes -/
+
+theorem inconsistent_ok {b b' : Builder K} {s e : K} (h : b.inconsistent s e = .ok b') :
+    s ≤ e ∧ b' = { b with bad := b.bad ++ [(s, e)] } := by
+  unfold Builder.inconsistent at h
+  by_cases hse : s ≤ e
+  · rw [if_pos hse] at h
+    exact ⟨hse, (Except.ok.inj h).symm⟩
+  · rw [if_neg hse] at h
+    cases h
+
+theorem consistent_ok {b b' : Builder K} {s e : K} (h : b.consistent s e = .ok b') :
+    s ≤ e ∧ b' = { b with good := b.good ++ [(s, e)] } := by
+  unfold Builder.consistent at h
+  by_cases hse : s ≤ e
+  · rw [if_pos hse] at h
+    exact ⟨hse, (Except.ok.inj h).symm⟩
+  · rw [if_neg hse] at h
+    cases h
+
+theorem supersetOf_iff (a b : PR K D) :
+    a.supersetOf b = true ↔ a.start ≤ b.start ∧ b.end_ ≤ a.end_ := by
+  simp [PR.supersetOf]
+
+theorem supersetOf_refl (a : PR K D) : a.supersetOf a = true := by
+  simp [PR.supersetOf]
+
+/-! ### The conditional invariants of the walk -/
+
+/-- An inconsistent mark recorded while walking below `root`. -/
+def BadOK (PP LP : PR K D → Prop) (root : PR K D) (r : DR K) : Prop :=
+  (root.start ≤ r.1 ∧ r.2 ≤ root.end_) ∧
+  (∃ p, PP p ∧ (r.1 = p.start ∨ r.1 = p.end_)) ∧
+  ((∃ p, PP p ∧ r.2 = p.end_) ∨ (∃ l, LP l ∧ r.2 = l.start))
+
+/-- A consistent mark. -/
+def GoodOK (PP LP : PR K D → Prop) (g : DR K) : Prop :=
+  ∃ p, PP p ∧ ∃ l, LP l ∧ g = (p.start, p.end_) ∧ l.hash = p.hash
+
+/-- What a successful part of the walk below `root` does to the builder. -/
+def Step (PP LP : PR K D → Prop) (root : PR K D) (b b' : Builder K) : Prop :=
+  (∀ r ∈ b.bad, r ∈ b'.bad) ∧
+  (∀ r ∈ b'.bad, r ∈ b.bad ∨ BadOK PP LP root r) ∧
+  (∀ g ∈ b'.good, g ∈ b.good ∨ GoodOK PP LP g)
+
+theorem Step.refl (PP LP : PR K D → Prop) (root : PR K D) (b : Builder K) :
+    Step PP LP root b b :=
+  ⟨fun _ h => h, fun _ h => Or.inl h, fun _ h => Or.inl h⟩
+
+theorem Step.trans {PP LP : PR K D → Prop} {root : PR K D} {b1 b2 b3 : Builder K}
+    (h1 : Step PP LP root b1 b2) (h2 : Step PP LP root b2 b3) : Step PP LP root b1 b3 := by
+  refine ⟨fun r h => h2.1 r (h1.1 r h), ?_, ?_⟩
+  · intro r hr
+    rcases h2.2.1 r hr with h | h
+    · exact h1.2.1 r h
+    · exact Or.inr h
+  · intro g hg
+    rcases h2.2.2 g hg with h | h
+    · exact h1.2.2 g h
+    · exact Or.inr h
+
+theorem BadOK.mono {PP LP : PR K D → Prop} {root p : PR K D} {r : DR K}
+    (hsup : root.start ≤ p.start ∧ p.end_ ≤ root.end_) (h : BadOK PP LP p r) :
+    BadOK PP LP root r :=
+  ⟨⟨le_trans hsup.1 h.1.1, le_trans h.1.2 hsup.2⟩, h.2⟩
+
+theorem Step.mono {PP LP : PR K D → Prop} {root p : PR K D} {b b' : Builder K}
+    (hsup : root.start ≤ p.start ∧ p.end_ ≤ root.end_) (h : Step PP LP p b b') :
+    Step PP LP root b b' := by
+  refine ⟨h.1, ?_, h.2.2⟩
+  intro r hr
+  rcases h.2.1 r hr with h' | h'
+  · exact Or.inl h'
+  · exact Or.inr (BadOK.mono hsup h')
+
+theorem Step.inconsistent {PP LP : PR K D → Prop} {root : PR K D} {b b' : Builder K} {s e : K}
+    (h : b.inconsistent s e = .ok b') (hok : BadOK PP LP root (s, e)) :
+    Step PP LP root b b' := by
+  obtain ⟨-, rfl⟩ := inconsistent_ok h
+  refine ⟨?_, ?_, fun _ h => Or.inl h⟩
+  · intro r hr
+    exact List.mem_append_left _ hr
+  · intro r hr
+    rcases List.mem_append.1 hr with h' | h'
+    · exact Or.inl h'
+    · simp only [List.mem_cons, List.not_mem_nil, or_false] at h'
+      subst h'
+      exact Or.inr hok
+
+theorem Step.consistent {PP LP : PR K D → Prop} {root : PR K D} {b b' : Builder K} {s e : K}
+    (h : b.consistent s e = .ok b') (hok : GoodOK PP LP (s, e)) :
+    Step PP LP root b b' := by
+  obtain ⟨-, rfl⟩ := consistent_ok h
+  refine ⟨fun _ h => h, fun _ h => Or.inl h, ?_⟩
+  intro r hr
+  rcases List.mem_append.1 hr with h' | h'
+  · exact Or.inl h'
+  · simp only [List.mem_cons, List.not_mem_nil, or_false] at h'
+    subst h'
+    exact Or.inr hok
+
+theorem shrinkLocal_fst (p : PR K D) (loc : List (PR K D)) : ∀ (l0 : PR K D),
+    (shrinkLocal p l0 loc).1 = l0 ∨ (shrinkLocal p l0 loc).1 ∈ loc := by
+  induction loc with
+  | nil => intro l0; exact Or.inl rfl
+  | cons v rest ih =>
+    intro l0
+    unfold shrinkLocal
+    by_cases h : v.supersetOf p = true
+    · rw [if_pos h]
+      rcases ih v with h' | h'
+      · exact Or.inr (by rw [h']; simp)
+      · exact Or.inr (List.mem_cons_of_mem _ h')
+    · rw [if_neg h]
+      exact Or.inl rfl
+
+theorem drainSubtree_inv (PP LP : PR K D → Prop) (root : PR K D) (peer : List (PR K D)) :
+    ∀ (b : Builder K) (peer' : List (PR K D)) (b' : Builder K),
+    drainSubtree root peer b = .ok (peer', b') → (∀ r ∈ peer, PP r) →
+    (∀ r ∈ peer', PP r) ∧ Step PP LP root b b' := by
+  induction peer with
+  | nil =>
+    intro b peer' b' h hp
+    simp only [drainSubtree, Except.ok.injEq, Prod.mk.injEq] at h
+    obtain ⟨rfl, rfl⟩ := h
+    exact ⟨hp, Step.refl ..⟩
+  | cons v rest ih =>
+    intro b peer' b' h hp
+    unfold drainSubtree at h
+    by_cases hs : root.supersetOf v = true
+    · rw [if_pos hs] at h
+      cases hb1 : b.inconsistent v.start v.end_ with
+      | error e => simp [hb1] at h
+      | ok b1 =>
+        simp only [hb1] at h
+        obtain ⟨hp', hs'⟩ := ih b1 peer' b' h (fun r hr => hp r (by simp [hr]))
+        have hv : PP v := hp v (by simp)
+        refine ⟨hp', Step.trans (Step.inconsistent hb1 ?_) hs'⟩
+        exact ⟨(supersetOf_iff root v).1 hs, ⟨v, hv, Or.inl rfl⟩, Or.inl ⟨v, hv, rfl⟩⟩
+    · rw [if_neg hs] at h
+      simp only [Except.ok.injEq, Prod.mk.injEq] at h
+      obtain ⟨rfl, rfl⟩ := h
+      exact ⟨hp, Step.refl ..⟩
+
+/-- The joint invariant of the two mutually recursive walkers: whatever a successful call records
+is justified (`Step`), and the cursors only move forward over pages satisfying `PP` / `LP`. -/
+theorem walk_inv (PP LP : PR K D → Prop) : ∀ fuel : Nat,
+    (∀ (root : PR K D) (lastP : Option (PR K D)) (peer loc : List (PR K D)) (b : Builder K)
+       (peer' loc' : List (PR K D)) (b' : Builder K),
+      recurseDiff fuel root lastP peer loc b = .ok (peer', loc', b') →
+      PP root → (∀ v, lastP = some v → PP v ∧ root.start ≤ v.end_) →
+      (∀ r ∈ peer, PP r) → (∀ r ∈ loc, LP r) →
+      (∀ r ∈ peer', PP r) ∧ (∀ r ∈ loc', LP r) ∧ Step PP LP root b b') ∧
+    (∀ (root : PR K D) (peer loc : List (PR K D)) (b : Builder K)
+       (peer' loc' : List (PR K D)) (b' : Builder K),
+      recurseSubtree fuel root peer loc b = .ok (peer', loc', b') →
+      PP root → (∀ r ∈ peer, PP r) → (∀ r ∈ loc, LP r) →
+      (∀ r ∈ peer', PP r) ∧ (∀ r ∈ loc', LP r) ∧ Step PP LP root b b') := by
+  intro fuel
+  induction fuel with
+  | zero =>
+    constructor
+    · intro root lastP peer loc b peer' loc' b' h
+      cases lastP <;> simp [recurseDiff] at h
+    · intro root peer loc b peer' loc' b' h
+      simp [recurseSubtree] at h
+  | succ fuel ih =>
+    obtain ⟨ihD, ihS⟩ := ih
+    constructor
+    · intro root lastP peer loc b peer' loc' b' h hroot hlast hpeer hloc
+      rw [recurseDiff_succ] at h
+      rcases advWithin_cases root peer with ha | ⟨p, peer1, rfl, hsup, ha⟩
+      · rw [ha] at h
+        simp only [Except.ok.injEq, Prod.mk.injEq] at h
+        obtain ⟨rfl, rfl, rfl⟩ := h
+        exact ⟨hpeer, hloc, Step.refl ..⟩
+      · rw [ha] at h
+        dsimp only at h
+        have hp : PP p := hpeer p (by simp)
+        have hpeer1 : ∀ r ∈ peer1, PP r := fun r hr => hpeer r (by simp [hr])
+        have hsup' := (supersetOf_iff root p).1 hsup
+        rcases advWithin_cases p loc with h2 | ⟨l0, loc1, rfl, hsup2, h2⟩
+        · rw [h2] at h
+          dsimp only at h
+          by_cases hls : locSup p loc = true
+          · rw [if_pos hls] at h
+            simp only [Except.ok.injEq, Prod.mk.injEq] at h
+            obtain ⟨rfl, rfl, rfl⟩ := h
+            exact ⟨hpeer1, hloc, Step.refl ..⟩
+          · rw [if_neg hls] at h
+            by_cases hse : walkStart root lastP ≤ walkEnd p loc
+            · rw [if_pos hse] at h
+              cases hb1 : b.inconsistent (walkStart root lastP) (walkEnd p loc) with
+              | error e => simp [hb1] at h
+              | ok b1 =>
+                simp only [hb1, Except.ok.injEq, Prod.mk.injEq] at h
+                obtain ⟨rfl, rfl, rfl⟩ := h
+                refine ⟨hpeer1, hloc, Step.inconsistent hb1 ⟨⟨?_, ?_⟩, ?_, ?_⟩⟩
+                · cases lastP with
+                  | none => exact le_refl _
+                  | some v => exact (hlast v rfl).2
+                · cases loc with
+                  | nil => exact hsup'.2
+                  | cons lh rest =>
+                    simp only [walkEnd]
+                    by_cases hlt : p.end_ < lh.start
+                    · rw [if_pos hlt]; exact hsup'.2
+                    · rw [if_neg hlt]; exact le_trans (le_of_not_gt hlt) hsup'.2
+                · cases lastP with
+                  | none => exact ⟨root, hroot, Or.inl rfl⟩
+                  | some v => exact ⟨v, (hlast v rfl).1, Or.inr rfl⟩
+                · cases loc with
+                  | nil => exact Or.inl ⟨p, hp, rfl⟩
+                  | cons lh rest =>
+                    simp only [walkEnd]
+                    by_cases hlt : p.end_ < lh.start
+                    · rw [if_pos hlt]; exact Or.inl ⟨p, hp, rfl⟩
+                    · rw [if_neg hlt]; exact Or.inr ⟨lh, hloc lh (by simp), rfl⟩
+            · rw [if_neg hse] at h
+              simp only [Except.ok.injEq, Prod.mk.injEq] at h
+              obtain ⟨rfl, rfl, rfl⟩ := h
+              exact ⟨hpeer1, hloc, Step.refl ..⟩
+        · rw [h2] at h
+          dsimp only at h
+          rw [hsup] at h
+          simp only [Bool.not_true, Bool.false_eq_true, if_false] at h
+          have hfst := shrinkLocal_fst p loc1 l0
+          have hsnd := shrinkLocal_mem p loc1 l0
+          rcases hsl : shrinkLocal p l0 loc1 with ⟨l, loc2⟩
+          rw [hsl] at h hfst hsnd
+          dsimp only at h hfst hsnd
+          have hl : LP l := by
+            rcases hfst with rfl | hm
+            · exact hloc _ (by simp)
+            · exact hloc l (by simp [hm])
+          have hloc2 : ∀ r ∈ loc2, LP r := fun r hr => hloc r (by simp [hsnd r hr])
+          have tail : ∀ (b1 : Builder K) (peer2 : List (PR K D)), p.start ≤ p.end_ →
+              Step PP LP root b b1 → (∀ r ∈ peer2, PP r) →
+              (match recurseSubtree fuel p peer2 loc2 b1 with
+                | .error e => Except.error e
+                | .ok (peer3, loc3, b2) => recurseDiff fuel root (some p) peer3 loc3 b2) =
+                .ok (peer', loc', b') →
+              (∀ r ∈ peer', PP r) ∧ (∀ r ∈ loc', LP r) ∧ Step PP LP root b b' := by
+            intro b1 peer2 hpv hs1 hpeer2 ht
+            cases hS : recurseSubtree fuel p peer2 loc2 b1 with
+            | error e => simp [hS] at ht
+            | ok res =>
+              obtain ⟨peer3, loc3, b2⟩ := res
+              simp only [hS] at ht
+              obtain ⟨hpeer3, hloc3, hs2⟩ := ihS p peer2 loc2 b1 _ _ _ hS hp hpeer2 hloc2
+              obtain ⟨hpeer4, hloc4, hs3⟩ := ihD root (some p) peer3 loc3 b2 _ _ _ ht hroot
+                (fun v hv => by cases hv; exact ⟨hp, le_trans hsup'.1 hpv⟩) hpeer3 hloc3
+              exact ⟨hpeer4, hloc4, Step.trans hs1 (Step.trans (Step.mono hsup' hs2) hs3)⟩
+          by_cases hh : l.hash = p.hash
+          · rw [if_pos hh] at h
+            cases hb1 : b.consistent p.start p.end_ with
+            | error e => simp [hb1] at h
+            | ok b1 =>
+              simp only [hb1] at h
+              exact tail b1 (skipSubtree p peer1) (consistent_ok hb1).1
+                (Step.consistent hb1 ⟨p, hp, l, hl, rfl, hh⟩)
+                (fun r hr => hpeer1 r (skipSubtree_mem p peer1 r hr)) h
+          · rw [if_neg hh] at h
+            cases hb1 : b.inconsistent p.start p.end_ with
+            | error e => simp [hb1] at h
+            | ok b1 =>
+              simp only [hb1] at h
+              exact tail b1 peer1 (inconsistent_ok hb1).1
+                (Step.inconsistent hb1 ⟨hsup', ⟨p, hp, Or.inl rfl⟩, Or.inl ⟨p, hp, rfl⟩⟩)
+                hpeer1 h
+    · intro root peer loc b peer' loc' b' h hroot hpeer hloc
+      rw [recurseSubtree] at h
+      cases hD : recurseDiff fuel root none peer loc b with
+      | error e => simp [hD] at h
+      | ok res =>
+        obtain ⟨peer1, loc1, b1⟩ := res
+        simp only [hD] at h
+        obtain ⟨hpeer1, hloc1, hs1⟩ :=
+          ihD root none peer loc b _ _ _ hD hroot (fun v hv => by cases hv) hpeer hloc
+        cases hdr : drainSubtree root peer1 b1 with
+        | error e => simp [hdr] at h
+        | ok res2 =>
+          obtain ⟨peer2, b2⟩ := res2
+          simp only [hdr] at h
+          obtain ⟨hpeer2, hs2⟩ := drainSubtree_inv PP LP root peer1 b1 _ _ hdr hpeer1
+          have hfin : peer' = peer2 ∧ loc' = loc1 ∧ b' = b2 := by
+            cases peer2 with
+            | nil =>
+              simp only [Except.ok.injEq, Prod.mk.injEq] at h
+              exact ⟨h.1.symm, h.2.1.symm, h.2.2.symm⟩
+            | cons v rest =>
+              dsimp only at h
+              by_cases hv : root.supersetOf v = true
+              · rw [if_pos hv] at h; cases h
+              · rw [if_neg hv] at h
+                simp only [Except.ok.injEq, Prod.mk.injEq] at h
+                exact ⟨h.1.symm, h.2.1.symm, h.2.2.symm⟩
+          obtain ⟨rfl, rfl, rfl⟩ := hfin
+          exact ⟨hpeer2, hloc1, Step.trans hs1 hs2⟩
+
+/-- Unfolding of `diffWalk` on a non-empty peer list, with the fuel in successor form. -/
+theorem diffWalk_cons (loc : List (PR K D)) (root : PR K D) (rest : List (PR K D)) :
+    diffWalk loc (root :: rest) =
+      match recurseDiff (2 * rest.length + 1 + 1 + 1 + 1) root none (root :: rest) loc
+          Builder.empty with
+      | .error e => .error e
+      | .ok (_, _, b) => .ok b := by
+  have hf : 2 * (root :: rest).length + 2 = 2 * rest.length + 1 + 1 + 1 + 1 := by
+    simp only [List.length_cons]; omega
+  unfold diffWalk
+  dsimp only
+  rw [hf]
+
+/-- The invariant, instantiated at the top-level call. -/
+theorem diffWalk_step (PP LP : PR K D → Prop) (loc : List (PR K D)) (root : PR K D)
+    (rest : List (PR K D)) (b : Builder K) (h : diffWalk loc (root :: rest) = .ok b)
+    (hpeer : ∀ r ∈ root :: rest, PP r) (hloc : ∀ r ∈ loc, LP r) :
+    Step PP LP root Builder.empty b := by
+  rw [diffWalk_cons] at h
+  cases hD : recurseDiff (2 * rest.length + 1 + 1 + 1 + 1) root none (root :: rest) loc
+      Builder.empty with
+  | error e => simp [hD] at h
+  | ok res =>
+    obtain ⟨peer', loc', b'⟩ := res
+    simp only [hD, Except.ok.injEq] at h
+    subst h
+    exact ((walk_inv PP LP _).1 root none (root :: rest) loc Builder.empty _ _ _ hD
+      (hpeer root (by simp)) (fun v hv => by cases hv) hpeer hloc).2.2
+
 theorem diff_eq_walk (loc peer : List (PR K D)) (hne : peer ≠ []) :
     diff loc peer = (match diffWalk loc peer with
                      | .error e => .error e
                      | .ok b => b.intoDiffVec) := by
-  sorry
+  cases peer with
+  | nil => exact absurd rfl hne
+  | cons root rest =>
+    unfold diff diffWalk
+    dsimp only
+    cases recurseDiff (2 * (root :: rest).length + 2) root none (root :: rest) loc
+        Builder.empty with
+    | error e => rfl
+    | ok res => rfl
 
 /-- The walk is total on valid lists (from `recurseDiff_total`) and records valid intervals. -/
 theorem diffWalk_total (loc peer : List (PR K D)) (hl : PRValid loc) (hp : PRValid peer) :
     ∃ b, diffWalk loc peer = .ok b ∧ DRValid b.bad ∧ DRValid b.good := by
-  sorry
+  cases peer with
+  | nil =>
+    exact ⟨Builder.empty, rfl, by simp [DRValid, Builder.empty], by simp [DRValid, Builder.empty]⟩
+  | cons root rest =>
+    obtain ⟨peer', loc', b, he, hbv, hgv, -⟩ :=
+      recurseDiff_total loc (root :: rest) root hl hp (hp root (by simp))
+    refine ⟨b, ?_, hbv, hgv⟩
+    unfold diffWalk
+    simp only [he]
 
 /-- Every consistent mark is a peer page whose digest equals the digest of some local page. -/
 theorem diffWalk_good_justified (loc peer : List (PR K D)) (b : Builder K)
     (h : diffWalk loc peer = .ok b) :
     ∀ g ∈ b.good, ∃ p ∈ peer, ∃ l ∈ loc, g = (p.start, p.end_) ∧ l.hash = p.hash := by
-  sorry
+  cases peer with
+  | nil =>
+    simp only [diffWalk, Except.ok.injEq] at h
+    subst h
+    intro g hg
+    simp [Builder.empty] at hg
+  | cons root rest =>
+    have hs := diffWalk_step (fun p => p ∈ root :: rest) (fun l => l ∈ loc) loc root rest b h
+      (fun r hr => hr) (fun r hr => hr)
+    intro g hg
+    rcases hs.2.2 g hg with h' | ⟨p, hp, l, hl, hg, hh⟩
+    · simp [Builder.empty] at h'
+    · exact ⟨p, hp, l, hl, hg, hh⟩
 
 /-- Every inconsistent mark lies inside the peer's first (root) range. -/
 theorem diffWalk_bad_within (loc : List (PR K D)) (root : PR K D) (rest : List (PR K D))
     (hp : PRValid (root :: rest)) (b : Builder K) (h : diffWalk loc (root :: rest) = .ok b) :
     ∀ r ∈ b.bad, root.start ≤ r.1 ∧ r.2 ≤ root.end_ := by
-  sorry
+  have hs := diffWalk_step (fun _ => True) (fun _ => True) loc root rest b h
+    (fun r hr => trivial) (fun r hr => trivial)
+  intro r hr
+  rcases hs.2.1 r hr with h' | h'
+  · simp [Builder.empty] at h'
+  · exact h'.1
 
 /-- Inconsistent marks start at a peer bound and end at a peer end or at a local start. -/
 theorem diffWalk_bad_bounds (loc peer : List (PR K D)) (b : Builder K)
     (h : diffWalk loc peer = .ok b) :
     ∀ r ∈ b.bad, (∃ p ∈ peer, r.1 = p.start ∨ r.1 = p.end_) ∧
       ((∃ p ∈ peer, r.2 = p.end_) ∨ (∃ l ∈ loc, r.2 = l.start)) := by
-  sorry
+  cases peer with
+  | nil =>
+    simp only [diffWalk, Except.ok.injEq] at h
+    subst h
+    intro g hg
+    simp [Builder.empty] at hg
+  | cons root rest =>
+    have hs := diffWalk_step (fun p => p ∈ root :: rest) (fun l => l ∈ loc) loc root rest b h
+      (fun r hr => hr) (fun r hr => hr)
+    intro r hr
+    rcases hs.2.1 r hr with h' | ⟨-, h1, h2⟩
+    · simp [Builder.empty] at h'
+    · exact ⟨h1, h2⟩
 
 /-! ### The first iteration in the configurations the tree-level theorems need -/
+
+theorem advWithin_self (root : PR K D) (rest : List (PR K D)) :
+    advWithin root (root :: rest) = (some root, rest) := by
+  simp [advWithin, supersetOf_refl]
 
 /-- Empty local list: the whole root range is requested. -/
 theorem diffWalk_local_empty (root : PR K D) (rest : List (PR K D)) (hr : root.start ≤ root.end_) :
     diffWalk ([] : List (PR K D)) (root :: rest) =
       .ok { bad := [(root.start, root.end_)], good := [] } := by
-  sorry
+  rw [diffWalk_cons, recurseDiff_succ, advWithin_self]
+  simp [advWithin, locSup, walkStart, walkEnd, hr, Builder.inconsistent, Builder.empty]
 
 /-- Neither head contains the other (partially overlapping or disjoint spans): exactly one
 interval `[root.start, min(local.start, root.end)]` is requested when the peer starts first,
@@ -65,7 +446,14 @@ theorem diffWalk_head_incomparable (lh : PR K D) (lt : List (PR K D)) (root : PR
       .ok { bad := (if root.start ≤ (if root.end_ < lh.start then root.end_ else lh.start)
                     then [(root.start, if root.end_ < lh.start then root.end_ else lh.start)] else []),
             good := [] } := by
-  sorry
+  rw [diffWalk_cons, recurseDiff_succ, advWithin_self]
+  dsimp only
+  have ha : advWithin root (lh :: lt) = (none, lh :: lt) := by simp [advWithin, h1]
+  rw [ha]
+  simp only [locSup, h2, walkStart, walkEnd, Bool.false_eq_true, if_false]
+  by_cases hg : root.start ≤ (if root.end_ < lh.start then root.end_ else lh.start)
+  · simp [hg, Builder.inconsistent, Builder.empty]
+  · simp [hg, Builder.empty]
 
 /-- The peer root contains the local head, no later local page contains the peer root, and the
 digests differ: the whole root range is marked inconsistent. -/
@@ -76,7 +464,61 @@ theorem diffWalk_head_within (l0 : PR K D) (lt : List (PR K D)) (root : PR K D)
     (hh : l0.hash ≠ root.hash) (b : Builder K)
     (h : diffWalk (l0 :: lt) (root :: rest) = .ok b) :
     (root.start, root.end_) ∈ b.bad := by
-  sorry
+  rw [diffWalk_cons, recurseDiff_succ, advWithin_self] at h
+  dsimp only at h
+  have ha : advWithin root (l0 :: lt) = (some l0, lt) := by simp [advWithin, h1]
+  rw [ha] at h
+  dsimp only at h
+  have hsl : shrinkLocal root l0 lt = (l0, lt) := by
+    cases lt with
+    | nil => rfl
+    | cons v t => simp [shrinkLocal, h2 v rfl]
+  rw [hsl] at h
+  have hb1 : (Builder.empty : Builder K).inconsistent root.start root.end_ =
+      .ok { bad := [(root.start, root.end_)], good := [] } := by
+    simp [Builder.inconsistent, Builder.empty, hv]
+  simp only [supersetOf_refl, Bool.not_true, Bool.false_eq_true, if_false, hh, hb1] at h
+  cases hS : recurseSubtree (2 * rest.length + 1 + 1 + 1) root rest lt
+      { bad := [(root.start, root.end_)], good := [] } with
+  | error e => simp [hS] at h
+  | ok res =>
+    obtain ⟨peer3, loc3, b2⟩ := res
+    simp only [hS] at h
+    cases hD : recurseDiff (2 * rest.length + 1 + 1 + 1) root (some root) peer3 loc3 b2 with
+    | error e => simp [hD] at h
+    | ok res2 =>
+      obtain ⟨peer4, loc4, b3⟩ := res2
+      simp only [hD, Except.ok.injEq] at h
+      subst h
+      have hs1 := ((walk_inv (fun _ => True) (fun _ => True) _).2 root rest lt _ _ _ _ hS
+        trivial (fun _ _ => trivial) (fun _ _ => trivial)).2.2
+      have hs2 := ((walk_inv (fun _ => True) (fun _ => True) _).1 root (some root) peer3 loc3 b2
+        _ _ _ hD trivial (fun v hv' => by cases hv'; exact ⟨trivial, hv⟩)
+        (fun _ _ => trivial) (fun _ _ => trivial)).2.2
+      exact hs2.1 _ (hs1.1 _ (by simp))
+
+theorem recurseDiff_nil_peer (f : Nat) (hf : 1 ≤ f) (root : PR K D) (lastP : Option (PR K D))
+    (loc : List (PR K D)) (b : Builder K) :
+    recurseDiff f root lastP [] loc b = .ok ([], loc, b) := by
+  obtain ⟨k, rfl⟩ : ∃ k, f = k + 1 := ⟨f - 1, by omega⟩
+  rw [recurseDiff_succ]
+  rfl
+
+theorem recurseSubtree_nil_peer (f : Nat) (hf : 2 ≤ f) (root : PR K D)
+    (loc : List (PR K D)) (b : Builder K) :
+    recurseSubtree f root [] loc b = .ok ([], loc, b) := by
+  obtain ⟨k, rfl⟩ : ∃ k, f = k + 1 := ⟨f - 1, by omega⟩
+  rw [recurseSubtree, recurseDiff_nil_peer k (by omega)]
+  rfl
+
+theorem skipSubtree_all (r : PR K D) (rest : List (PR K D))
+    (hsub : ∀ v ∈ rest, r.supersetOf v = true) : skipSubtree r rest = [] := by
+  induction rest with
+  | nil => rfl
+  | cons v t ih =>
+    unfold skipSubtree
+    rw [if_pos (hsub v (by simp))]
+    exact ih (fun w hw => hsub w (by simp [hw]))
 
 /-- Diffing a list against itself, when the head contains every later range and the second range
 does not contain the head (true of every real serialisation): nothing inconsistent. -/
@@ -84,9 +526,130 @@ theorem diffWalk_same (r : PR K D) (rest : List (PR K D)) (hv : r.start ≤ r.en
     (hsub : ∀ v ∈ rest, r.supersetOf v = true)
     (hsnd : ∀ v, rest.head? = some v → v.supersetOf r = false) :
     diffWalk (r :: rest) (r :: rest) = .ok { bad := [], good := [(r.start, r.end_)] } := by
-  sorry
+  rw [diffWalk_cons, recurseDiff_succ, advWithin_self]
+  dsimp only
+  rw [advWithin_self]
+  dsimp only
+  have hsl : shrinkLocal r r rest = (r, rest) := by
+    cases rest with
+    | nil => rfl
+    | cons v t => simp [shrinkLocal, hsnd v rfl]
+  rw [hsl]
+  have hb1 : (Builder.empty : Builder K).consistent r.start r.end_ =
+      .ok { bad := [], good := [(r.start, r.end_)] } := by
+    simp [Builder.consistent, Builder.empty, hv]
+  simp only [supersetOf_refl, Bool.not_true, Bool.false_eq_true, if_false, if_true, hb1,
+    skipSubtree_all r rest hsub]
+  rw [recurseSubtree_nil_peer _ (by omega)]
+  dsimp only
+  rw [recurseDiff_nil_peer _ (by omega)]
 
 /-! ### From the recorded marks to the returned ranges -/
+
+/-- Starts satisfy `S`, ends satisfy `E`. -/
+def SE (S E : K → Prop) (l : List (DR K)) : Prop := ∀ r ∈ l, S r.1 ∧ E r.2
+
+theorem mergeGo_SE (S E : K → Prop) (rs : List (DR K)) : ∀ (last : DR K) (out : List (DR K)),
+    mergeGo last rs = .ok out → S last.1 → E last.2 → SE S E rs → SE S E out := by
+  induction rs with
+  | nil =>
+    intro last out h hs he _
+    simp only [mergeGo, Except.ok.injEq] at h
+    subst h
+    intro r hr
+    simp only [List.mem_cons, List.not_mem_nil, or_false] at hr
+    subst hr
+    exact ⟨hs, he⟩
+  | cons r rs ih =>
+    intro last out h hs he hrs
+    have hr : S r.1 ∧ E r.2 := hrs r (by simp)
+    have hrs' : SE S E rs := fun a ha => hrs a (by simp [ha])
+    unfold mergeGo at h
+    by_cases h0 : last.1 ≤ r.1
+    · simp only [h0, decide_true, Bool.not_true, Bool.false_eq_true, if_false] at h
+      by_cases h1 : r.2 ≤ last.2
+      · rw [if_pos h1] at h
+        exact ih last out h hs he hrs'
+      · rw [if_neg h1] at h
+        by_cases h2 : r.1 ≤ last.2
+        · rw [if_pos h2] at h
+          exact ih (last.1, r.2) out h hs hr.2 hrs'
+        · rw [if_neg h2] at h
+          cases hm : mergeGo r rs with
+          | error e => simp [hm] at h
+          | ok o =>
+            simp only [hm, Except.ok.injEq] at h
+            subst h
+            intro a ha
+            rcases List.mem_cons.1 ha with rfl | ha
+            · exact ⟨hs, he⟩
+            · exact ih r o hm hr.1 hr.2 hrs' a ha
+    · simp [h0] at h
+
+theorem mergeOverlapping_SE (S E : K → Prop) (l out : List (DR K))
+    (h : mergeOverlapping l = .ok out) (hl : SE S E l) : SE S E out := by
+  cases l with
+  | nil =>
+    simp only [mergeOverlapping, Except.ok.injEq] at h
+    subst h
+    exact hl
+  | cons a rs =>
+    have ha := hl a (by simp)
+    exact mergeGo_SE S E rs a out h ha.1 ha.2 (fun r hr => hl r (by simp [hr]))
+
+theorem intoVec_SE (S E : K → Prop) (l m : List (DR K)) (h : intoVec l = .ok m)
+    (hl : SE S E l) : SE S E m := by
+  unfold intoVec at h
+  cases hm : mergeOverlapping (l.mergeSort (fun a b => decide (a.1 ≤ b.1))) with
+  | error e => simp [hm] at h
+  | ok m' =>
+    simp only [hm] at h
+    cases hc : checkWindowsIntoVec m' with
+    | error e => simp [hc] at h
+    | ok u =>
+      simp only [hc, Except.ok.injEq] at h
+      subst h
+      refine mergeOverlapping_SE S E _ m' hm ?_
+      intro r hr
+      exact hl r ((List.mergeSort_perm l _).mem_iff.1 hr)
+
+theorem punch_SE (S E : K → Prop) (g b : DR K) (hb : S b.1 ∧ E b.2) (hg : E g.1 ∧ S g.2) :
+    SE S E (punch g b) := by
+  intro p hp
+  rw [mem_punch] at hp
+  rcases hp with ⟨_, rfl⟩ | ⟨_, ⟨_, rfl⟩ | ⟨_, rfl⟩⟩
+  · exact hb
+  · exact ⟨hb.1, hg.1⟩
+  · exact ⟨hg.2, hb.2⟩
+
+theorem foldl_punch_SE (S E : K → Prop) (good : List (DR K)) : ∀ (acc : List (DR K)),
+    SE S E acc → (∀ g ∈ good, E g.1 ∧ S g.2) →
+    SE S E (good.foldl (fun acc g => acc.flatMap (punch g)) acc) := by
+  induction good with
+  | nil => intro acc ha _; exact ha
+  | cons g good ih =>
+    intro acc ha hg
+    rw [List.foldl_cons]
+    refine ih _ ?_ (fun g' hg' => hg g' (by simp [hg']))
+    intro p hp
+    obtain ⟨a, haa, hpa⟩ := List.mem_flatMap.1 hp
+    exact punch_SE S E g a (ha a haa) (hg g (by simp)) p hpa
+
+theorem reduceSyncRange_SE (S E : K → Prop) (bad good out : List (DR K))
+    (h : reduceSyncRange bad good = .ok out) (hb : SE S E bad)
+    (hg : ∀ g ∈ good, E g.1 ∧ S g.2) : SE S E out := by
+  unfold reduceSyncRange at h
+  dsimp only at h
+  cases hm : mergeOverlapping (good.foldl (fun acc g => acc.flatMap (punch g)) bad) with
+  | error e => simp [hm] at h
+  | ok m' =>
+    simp only [hm] at h
+    cases hc : checkWindowsReduce m' with
+    | error e => simp [hc] at h
+    | ok u =>
+      simp only [hc, Except.ok.injEq] at h
+      subst h
+      exact mergeOverlapping_SE S E _ m' hm (foldl_punch_SE S E good bad hb hg)
 
 /-- Everything returned is covered by an inconsistent mark; everything inconsistent and not
 consistent is returned; returned ranges start at an inconsistent start or a consistent end and
@@ -97,12 +660,41 @@ theorem intoDiffVec_spec (b : Builder K) (hb : DRValid b.bad) (hg : DRValid b.go
       (∀ x, Covered x b.bad → ¬ Covered x b.good → Covered x out) ∧
       (∀ r ∈ out, ((∃ s ∈ b.bad, r.1 = s.1) ∨ (∃ g ∈ b.good, r.1 = g.2)) ∧
                   ((∃ s ∈ b.bad, r.2 = s.2) ∨ (∃ g ∈ b.good, r.2 = g.1))) := by
-  sorry
+  obtain ⟨bad, hbad, hbc, hbv, hbcov, -⟩ := intoVec_spec b.bad hb
+  obtain ⟨good, hgood, hgc, hgv, hgcov, -⟩ := intoVec_spec b.good hg
+  obtain ⟨out, hout, hoc, hov, hc1, hc2, -⟩ := reduceSyncRange_spec bad good hbc hbv hgc hgv
+  refine ⟨out, ?_, hoc, hov, ?_, ?_, ?_⟩
+  · simp only [Builder.intoDiffVec, hbad, hgood, hout]
+  · intro x hx
+    exact (hbcov x).1 (hc1 x hx)
+  · intro x hx hng
+    exact hc2 x ((hbcov x).2 hx) (fun h => hng ((hgcov x).1 h))
+  · have hbSE : SE (fun x => (∃ s ∈ b.bad, x = s.1) ∨ (∃ g ∈ b.good, x = g.2))
+        (fun x => (∃ s ∈ b.bad, x = s.2) ∨ (∃ g ∈ b.good, x = g.1)) bad :=
+      intoVec_SE _ _ b.bad bad hbad (fun r hr => ⟨Or.inl ⟨r, hr, rfl⟩, Or.inl ⟨r, hr, rfl⟩⟩)
+    have hgSE : SE (fun x => ∃ g ∈ b.good, x = g.1) (fun x => ∃ g ∈ b.good, x = g.2) good :=
+      intoVec_SE _ _ b.good good hgood (fun r hr => ⟨⟨r, hr, rfl⟩, ⟨r, hr, rfl⟩⟩)
+    exact reduceSyncRange_SE _ _ bad good out hout hbSE
+      (fun g hg' => ⟨Or.inr (hgSE g hg').1, Or.inr (hgSE g hg').2⟩)
 
 theorem diff_same (r : PR K D) (rest : List (PR K D)) (hv : r.start ≤ r.end_)
     (hsub : ∀ v ∈ rest, r.supersetOf v = true)
     (hsnd : ∀ v, rest.head? = some v → v.supersetOf r = false) :
     diff (r :: rest) (r :: rest) = .ok [] := by
-  sorry
+  rw [diff_eq_walk _ _ (by simp), diffWalk_same r rest hv hsub hsnd]
+  simp [Builder.intoDiffVec, intoVec, mergeOverlapping, mergeGo, checkWindowsIntoVec,
+    reduceSyncRange, checkWindowsReduce]
 
 end Mst
+
+#print axioms Mst.diff_eq_walk
+#print axioms Mst.diffWalk_total
+#print axioms Mst.diffWalk_good_justified
+#print axioms Mst.diffWalk_bad_within
+#print axioms Mst.diffWalk_bad_bounds
+#print axioms Mst.diffWalk_local_empty
+#print axioms Mst.diffWalk_head_incomparable
+#print axioms Mst.diffWalk_head_within
+#print axioms Mst.diffWalk_same
+#print axioms Mst.intoDiffVec_spec
+#print axioms Mst.diff_same
